@@ -27,8 +27,8 @@ type CfgVersion struct {
 }
 
 var ProgramPool = []struct {
-	path     string
-	versions []string
+	Path     string
+	Versions []string
 }{
 	{"example.com/gopls", []string{"v0.14.0", "v0.15.0", "v0.16.0-pre.1"}},
 	{"cmd/go", nil}, // toolchain program: version = Go version
@@ -87,8 +87,8 @@ func GenConfig(t *simrt.Tape, version string) *CfgVersion {
 		if !t.Bool(4, 5) {
 			continue
 		}
-		p := refcfg.Program{Name: pp.path}
-		vs := pp.versions
+		p := refcfg.Program{Name: pp.Path}
+		vs := pp.Versions
 		if vs == nil {
 			vs = GoVersionPool
 		}
@@ -149,14 +149,14 @@ func WriteCounterFile(t *simrt.Tape, s *simrt.Sim, dir string, begin time.Time, 
 	pp := ProgramPool[t.Draw(len(ProgramPool))]
 	gv := GoVersionPool[t.Draw(len(GoVersionPool))]
 	ver := gv
-	if pp.versions != nil {
-		ver = pp.versions[t.Draw(len(pp.versions))]
+	if pp.Versions != nil {
+		ver = pp.Versions[t.Draw(len(pp.Versions))]
 	}
 	plat := PlatformPool[t.Draw(len(PlatformPool))]
 	bday := refcal.DayOfUnix(begin.Unix())
 	meta := refformat.MetaText([][2]string{
 		{"TimeBegin", refcal.RFC3339Midnight(bday)}, {"TimeEnd", refcal.RFC3339Midnight(bday + days)},
-		{"Program", pp.path}, {"Version", ver}, {"GoVersion", gv}, {"GOOS", plat[0]}, {"GOARCH", plat[1]},
+		{"Program", pp.Path}, {"Version", ver}, {"GoVersion", gv}, {"GOOS", plat[0]}, {"GOARCH", plat[1]},
 	})
 	var pairs []refformat.Pair
 	if kind != 1 { // kind 1: empty file (no counters)
@@ -190,7 +190,7 @@ func WriteCounterFile(t *simrt.Tape, s *simrt.Sim, dir string, begin time.Time, 
 			binary.LittleEndian.PutUint32(data[28:], 0xffff)
 		}
 	}
-	progBase := pp.path[strings.LastIndex(pp.path, "/")+1:]
+	progBase := pp.Path[strings.LastIndex(pp.Path, "/")+1:]
 	name := fmt.Sprintf("%s@%s-%s-%s-%s-%s.v1.count", progBase, ver, gv, plat[0], plat[1], refcal.Date(bday))
 	if kind == 3 { // a second file of the same build and day cannot exist; vary the name as another program would
 		name = "x" + name
